@@ -173,7 +173,8 @@ def run(prop, tier):
                         pass
             # schedules: sampled edge cover of the interleaving graph; long ones only
             cfg2 = os.path.join(work, f"{name}-gen.cfg")
-            k = "PrintSched40" if tier == "quick" else "PrintSched1"
+            # small interleaving graphs are covered edge by edge in the quick tier as well
+            k = "PrintSched40" if tier == "quick" and st.get("distinct", 0) > 12000 else "PrintSched1"
             conc_cfg(cfg2, consts, action_constraint=k, invariants=[])
             rc, out = vlib.run_tlc("MC_conc.tla", cfg2, work, workers=1, timeout=1500,
                                    extra=["-seed", str(sd)])
